@@ -5,3 +5,4 @@ pub mod trav;
 pub mod paths;
 pub mod opt;
 pub mod misc;
+pub mod visit;
